@@ -157,6 +157,19 @@ def run_case(case):
             targets = None
             if call != "extractall":
                 targets = r.sample(names, r.randint(0, len(names)))
+            # model of WHICH members are reported: the same call on the sequential path (archive opened from a stream,
+            # no scheduler); every path must give the same account
+            ref_log, ref_lock = [], threading.Lock()
+            try:
+                with py7zr.SevenZipFile(io.BytesIO(data), "r") as zr:
+                    kwr = {"callback": _make_callback(ref_log, ref_lock, 0, False), "factory": pz.CollectFactory()}
+                    if call == "extractall":
+                        zr.extractall(**kwr)
+                    else:
+                        zr.extract(targets=targets, recursive=(call == "extract-rec"), **kwr)
+                expected_reported = {e[4][0] for e in ref_log if e[3] == "start"}
+            except Exception:
+                expected_reported = None
             log, lock = [], threading.Lock()
             cb = _make_callback(log, lock, block, gated)
             s = None
@@ -216,8 +229,23 @@ def run_case(case):
             else:
                 tree = pz.walk_tree(out) if os.path.isdir(out) else {}
                 delivered = {n for n in names if kinds[n] == "file" and sizes[n] > 0 and n in tree}
+            if sink == "disk":
+                # directories and empty files that extraction created are 'processed' members too
+                delivered_all = {n for n in names if n in tree}
+            else:
+                delivered_all = set(fac.as_dict())
             for code, text in check_log(list(log), close_ret, sizes, delivered, tag):
                 viol.append({"key": "log/" + code, "what": text})
+            reported = {e[4][0] for e in log if e[3] == "start"}
+            unreported = sorted(delivered_all - reported)
+            if unreported:
+                viol.append({"key": "log/created-but-unreported/%s" % kinds.get(unreported[0], "?"), "what": "%s: %r were created/delivered but got no events" % (tag, unreported[:4])})
+            if expected_reported is not None and reported != expected_reported:
+                miss = sorted(expected_reported - reported)
+                extra = sorted(reported - expected_reported)
+                viol.append({"key": "log/account-differs-from-sequential/%s" % ("missing-" + kinds.get(miss[0], "?") if miss else "extra"),
+                             "what": "%s: reported members differ from the sequential path's account: missing %r, extra %r" % (tag, miss[:4], extra[:4])})
+            obs["accounts_compared_with_sequential"] = obs.get("accounts_compared_with_sequential", 0) + (1 if expected_reported is not None else 0)
             obs["members_paired"] += len({e[4][0] for e in log if e[3] == "start"})
             cells.add("f%d|%s|%s|%s|blk%d|%s|%s" % (case["folders"], call, mode, sink, block, "sched" if gated else "free", "multi-round" if case.get("chunk") else "one-round"))
             if len(viol) > 10:
